@@ -208,6 +208,25 @@ def buffers_check(tier):
     return cases, problems
 
 
+def placement_jobs(tier):
+    """State placement ("a block's preconditioner state exists only on its owning rank of each group"): the distributed harnesses of C06-C08 (which end with
+    the placement obligations) on the layouts where ownership matters -- DDP with the group spanning the world, HSDP / HybridShard with num_trainers_per_group
+    equal to and a proper divisor of the replicate size.  FP32 communication, every gradient present."""
+    from checks import c06, c07, c08
+
+    out = []
+    for j in c06.jobs_for(tier):
+        c = j["cfg"]
+        if c["world"] == c["group"] and c["world"] > 1 and not c.get("presence") and c.get("comm", "FP32") == "FP32" and not c.get("communicate_params"):
+            out.append(dict(j, id="ddp-" + j["id"]))
+    for mod, key in ((c07, "hsdp"), (c08, "hybrid")):
+        for j in mod.jobs_for(tier):
+            h = j["cfg"].get(key)
+            if h and h.get("comm", "FP32") == "FP32" and not j["cfg"].get("presence") and not h.get("communicate_params"):
+                out.append(dict(j, id=f"{key}-" + j["id"]))
+    return out
+
+
 def run(tier, seed, argv):
     from vlib import par
     from vlib.report import Report
@@ -220,6 +239,9 @@ def run(tier, seed, argv):
                        "buffer layout: concrete block shapes / group sizes 1..4 / three communication dtypes, on the stand-in's byte-cell model of the int8 buffer"]
     res = par.run_jobs(jobs_for(tier), chunk=12)
     rep.absorb("assignment", res)
+    pj = placement_jobs(tier)
+    rep.bounds["state_placement"] = f"{len(pj)} simulated layouts: " + ", ".join(j["id"] for j in pj)
+    rep.absorb("state-placement", par.run_jobs(pj, chunk=4))
     tw = par.run_jobs([dict(id="twin0", module="checks.c14", factory="make", cfg=dict(n=3, G=2, twin="not-least-loaded"))])
     rep.twin_expected = 1
     rep.twin_sat = int(any(x["status"] == "violation" for r in tw.values() for x in r["records"]))
@@ -278,6 +300,12 @@ def replay(record):
         cases, problems = buffers_check_real()
         return bool(problems), f"{cases} cases on real torch: " + ("; ".join(problems[:3]) if problems else "layout relations hold")
     cfg = info["cfg"]
+    if "n" not in cfg:
+        # a placement job: the distributed replays (real gloo processes) of the harness it came from
+        from checks import c06_replay, c07_replay, c08_replay
+
+        mod = c07_replay if cfg.get("hsdp") else (c08_replay if cfg.get("hybrid") else c06_replay)
+        return mod.replay(record)
     n, G = cfg["n"], cfg["G"]
     m = record.get("model", {})
     sizes = tuple(int(m.get(f"s{i}", 0)) for i in range(n))
